@@ -152,6 +152,27 @@ class Facts:
             stack.extend(edges.get(p, ()))
         return seen
 
+    def scope(self):
+        """Functions whose behaviour can matter for a call of the public API: everything reachable in the resolved
+        call graph from the entry points, plus every trait-impl method and public function of the crate (std calls
+        those through dispatch the call graph cannot see: From in `?`, PartialOrd::partial_cmp behind `<`, Debug in
+        `format!`, user-callable conversions).  In this crate that is every function."""
+        s = set(self.reach())
+        for f in self.fns:
+            if f.j.get("impl_trait") or f.j.get("public") or f.kind == "Closure":
+                s.add(f.path)
+        # closures of functions in scope
+        changed = True
+        edges, _, _ = self.callgraph()
+        while changed:
+            changed = False
+            for p in list(s):
+                for q in edges.get(p, ()):
+                    if q not in s:
+                        s.add(q)
+                        changed = True
+        return s
+
     def reach_of_evaluator(self, ev):
         k = "%s::%s" % (ev, ev)
         if k not in self.by_key:
